@@ -55,6 +55,18 @@ Blocks/Reach.vos Blocks/Reach.vok Blocks/Reach.required_vos: Blocks/Reach.v Base
 Blocks/DownloaderLTS.vo Blocks/DownloaderLTS.glob Blocks/DownloaderLTS.v.beautified Blocks/DownloaderLTS.required_vo: Blocks/DownloaderLTS.v Base/Prelude.vo Gen/Consts.vo Blocks/Reach.vo
 Blocks/DownloaderLTS.vio: Blocks/DownloaderLTS.v Base/Prelude.vio Gen/Consts.vio Blocks/Reach.vio
 Blocks/DownloaderLTS.vos Blocks/DownloaderLTS.vok Blocks/DownloaderLTS.required_vos: Blocks/DownloaderLTS.v Base/Prelude.vos Gen/Consts.vos Blocks/Reach.vos
+Blocks/DownloaderProofs.vo Blocks/DownloaderProofs.glob Blocks/DownloaderProofs.v.beautified Blocks/DownloaderProofs.required_vo: Blocks/DownloaderProofs.v Base/Prelude.vo Gen/Consts.vo Blocks/Reach.vo Blocks/DownloaderLTS.vo
+Blocks/DownloaderProofs.vio: Blocks/DownloaderProofs.v Base/Prelude.vio Gen/Consts.vio Blocks/Reach.vio Blocks/DownloaderLTS.vio
+Blocks/DownloaderProofs.vos Blocks/DownloaderProofs.vok Blocks/DownloaderProofs.required_vos: Blocks/DownloaderProofs.v Base/Prelude.vos Gen/Consts.vos Blocks/Reach.vos Blocks/DownloaderLTS.vos
+Blocks/Manager.vo Blocks/Manager.glob Blocks/Manager.v.beautified Blocks/Manager.required_vo: Blocks/Manager.v Base/Prelude.vo
+Blocks/Manager.vio: Blocks/Manager.v Base/Prelude.vio
+Blocks/Manager.vos Blocks/Manager.vok Blocks/Manager.required_vos: Blocks/Manager.v Base/Prelude.vos
+Blocks/ManagerProofs.vo Blocks/ManagerProofs.glob Blocks/ManagerProofs.v.beautified Blocks/ManagerProofs.required_vo: Blocks/ManagerProofs.v Base/Prelude.vo Blocks/Manager.vo
+Blocks/ManagerProofs.vio: Blocks/ManagerProofs.v Base/Prelude.vio Blocks/Manager.vio
+Blocks/ManagerProofs.vos Blocks/ManagerProofs.vok Blocks/ManagerProofs.required_vos: Blocks/ManagerProofs.v Base/Prelude.vos Blocks/Manager.vos
+Blocks/ManagerCheck.vo Blocks/ManagerCheck.glob Blocks/ManagerCheck.v.beautified Blocks/ManagerCheck.required_vo: Blocks/ManagerCheck.v Base/Prelude.vo Blocks/Manager.vo
+Blocks/ManagerCheck.vio: Blocks/ManagerCheck.v Base/Prelude.vio Blocks/Manager.vio
+Blocks/ManagerCheck.vos Blocks/ManagerCheck.vok Blocks/ManagerCheck.required_vos: Blocks/ManagerCheck.v Base/Prelude.vos Blocks/Manager.vos
 Tx/TxManager.vo Tx/TxManager.glob Tx/TxManager.v.beautified Tx/TxManager.required_vo: Tx/TxManager.v Base/Prelude.vo
 Tx/TxManager.vio: Tx/TxManager.v Base/Prelude.vio
 Tx/TxManager.vos Tx/TxManager.vok Tx/TxManager.required_vos: Tx/TxManager.v Base/Prelude.vos
@@ -94,3 +106,6 @@ Props/C03.vos Props/C03.vok Props/C03.required_vos: Props/C03.v Base/Prelude.vos
 Props/C06.vo Props/C06.glob Props/C06.v.beautified Props/C06.required_vo: Props/C06.v Base/Prelude.vo Tx/TxManager.vo Tx/TxProofs.vo
 Props/C06.vio: Props/C06.v Base/Prelude.vio Tx/TxManager.vio Tx/TxProofs.vio
 Props/C06.vos Props/C06.vok Props/C06.required_vos: Props/C06.v Base/Prelude.vos Tx/TxManager.vos Tx/TxProofs.vos
+Props/C16.vo Props/C16.glob Props/C16.v.beautified Props/C16.required_vo: Props/C16.v Base/Prelude.vo Gen/Consts.vo Blocks/Reach.vo Blocks/DownloaderLTS.vo Blocks/DownloaderProofs.vo Blocks/Manager.vo Blocks/ManagerProofs.vo
+Props/C16.vio: Props/C16.v Base/Prelude.vio Gen/Consts.vio Blocks/Reach.vio Blocks/DownloaderLTS.vio Blocks/DownloaderProofs.vio Blocks/Manager.vio Blocks/ManagerProofs.vio
+Props/C16.vos Props/C16.vok Props/C16.required_vos: Props/C16.v Base/Prelude.vos Gen/Consts.vos Blocks/Reach.vos Blocks/DownloaderLTS.vos Blocks/DownloaderProofs.vos Blocks/Manager.vos Blocks/ManagerProofs.vos
